@@ -185,7 +185,7 @@ func (p *Path) cloneValue(v Value) Value {
 			return (*ChanV)(nil)
 		}
 		p.objN++
-		return &ChanV{ID: p.objN, Name: x.Name}
+		return &ChanV{ID: p.objN, Name: x.Name, Cap: x.Cap}
 	case TupleV:
 		out := make(TupleV, len(x))
 		for i, f := range x {
